@@ -1,0 +1,19 @@
+//go:build verif
+
+package pipeline
+
+import "sort"
+
+// VerifInstanceNames returns a sorted copy of the service's pipeline-name set
+// (instanceNames). Used by the C14 verification harness only; compiled only
+// with the "verif" build tag.
+func (s *Service) VerifInstanceNames() []string {
+	out := make([]string, 0, len(s.instanceNames))
+	for k, v := range s.instanceNames {
+		if v {
+			out = append(out, k)
+		}
+	}
+	sort.Strings(out)
+	return out
+}
